@@ -90,7 +90,7 @@ EVAL_ASSUME = ENGINE_ASSUME + [
     "(mutating fact methods are covered by the correspondence only)",
     "dependency_hypothesis (explicit in every theorem that needs it): a successful assignment to x changes the from-scratch value only of nodes whose "
     "snapshot contains x's snapshot; proofs/Findings.v proves it cannot be dropped (D2, D3: recorded findings, reproduced on the real engine on every run); "
-    "for FLAT rule sets (proofs/Frame.v: variables are top-level names, field chains and literal selectors such as F.X, F.In.X, F.Arr[2], F.M[\"k\"] - no computed selectors, methods or functions; expressions from constants, negation, parentheses and the binary operators, "
+    "for FLAT rule sets (proofs/Frame.v: variables are top-level names, field chains and literal selectors such as F.X, F.In.X, F.Arr[2], F.M[\"k\"] - no computed selectors or functions; expressions from constants, negation, parentheses, the binary operators and calls of admitted methods (side-effect free, independent of the receiver's state, not the built-in Len) on such variables, "
     "actions are assignments and control built-ins) both hypotheses are proved (Cxx_flat theorems) - there the theorems carry no assumption on the rules",
     "facts form a tree (no aliasing between fact objects); ASCII strings",
 ]
@@ -331,7 +331,7 @@ def _eval_text(what):
              "and the model (listener trace, outcome, final facts, call counts, snapshots), plus direct oracles on the implementation.",
         note="Trust: Coq kernel (+vm_compute), hand-written evaluator/engine models validated by correspondence, translator, harness. Hypotheses explicit in the "
              "theorems: side-effect free conditions/expressions (rules_ok) and the dependency hypothesis on invalidation (shown necessary; D2/D3 are recorded "
-             "findings); both are PROVED for flat rule sets (top-level names, field chains, literal selectors, constants, !, parentheses, binary operators; assignments and control built-ins). Only primitive int/float operations appear under Print Assumptions.",
+             "findings); both are PROVED for flat rule sets (top-level names, field chains, literal selectors, constants, !, parentheses, binary operators, receiver-independent method calls; assignments and control built-ins). Only primitive int/float operations appear under Print Assumptions.",
         technique="Rocq/Coq proof: refinement of a from-scratch spec engine by the memoising engine + differential correspondence (vm_compute)",
     )
 
